@@ -23,6 +23,7 @@ func init() {
 	addRun("C09", "crypto.go function by function against the model (password preparation, exhaustive permission tables, PKCS#7, KeyForRef, EncryptBytes/DecryptBytes, stream machines under random chunking, Algorithm 2.B, createStdSecHandler)", secUnit)
 	addRun("C09", rule, runC09)
 	addRun("C09", "parseEncryptDict + authenticate on valid and mutated Encrypt dictionaries", secOpenUnit)
+	addRun("C09", "revision 6 documents whose user or owner password has a SASLprep form of 120..135 bytes with a 2-, 3- or 4-byte character at the 127-byte truncation boundary, opened with that password and with passwords differing from it only in that character, only before it, or only after it: an AuthenticationError is expected exactly when the forms prepared independently of crypto.go (stringprep + cut at byte 127) differ", runC09Boundary)
 	addReplay("C09", "doc", replayC09Doc)
 	addReplay("C09", "bytes-roundtrip", replaySecBytes)
 	addReplay("C09", "stream-roundtrip", replaySecStream)
@@ -71,6 +72,13 @@ func c09OpenCheck(d *secDoc, pw string) (string, string) {
 	}
 	if exp.ok {
 		if err != nil {
+			owner := d.owner
+			if owner == "" {
+				owner = d.user
+			}
+			if pw != d.user && pw != owner {
+				return "C09-equivalent-password-rejected", fmt.Sprintf("password %q equals the %s password after preparation (R=%d) but is rejected: %v", pw, map[bool]string{true: "owner", false: "user"}[exp.owner], d.sec.R, err)
+			}
 			return "C09-correct-password-rejected", fmt.Sprintf("password %q (owner=%v) rejected: %v", pw, exp.owner, err)
 		}
 		if diff := d.checkContent(rd); diff != "" {
@@ -619,4 +627,47 @@ func secR5Fields(r *Rand, dict pdf.Dict, user, owner string, unencMeta bool, P u
 	dict["O"] = pdf.String(O)
 	dict["OE"] = pdf.String(OE)
 	dict["Perms"] = pdf.String(perms)
+}
+
+func runC09Boundary(c *Ctx) {
+	n := 6
+	if c.Thorough {
+		n = 60
+	}
+	r := c.R.Fork()
+	for i := 0; i < n; i++ {
+		genSeed, rngSeed := r.U64(), r.U64()
+		idx := secBoundaryIdx + i
+		d := secDocFromSeeds(genSeed, rngSeed, idx)
+		if d.writeErr != nil {
+			c.Violate("doc", "C09-write-failed", d.describe()+": "+d.writeErr.Error(), fmt.Sprintf("%d %d %d -", genSeed, rngSeed, idx))
+			continue
+		}
+		pws := append([]string{d.user, d.owner, ""}, d.boundary...)
+		seen := map[string]bool{}
+		for _, pw := range pws {
+			if seen[pw] {
+				continue
+			}
+			seen[pw] = true
+			// the library's own preparation against the model (cheap lines)
+			b, err := pdf.VerifUtf8Passwd(pw)
+			c.Emit("SEC utf8 "+pwSASL(pw), showBytesRes(b, err))
+			exp := d.expect(pw)
+			switch {
+			case !exp.known:
+				c.Stat("boundary-unpreparable")
+			case exp.ok && pw != d.user && pw != d.owner:
+				c.Stat("boundary-equivalent-opens")
+			case exp.ok:
+				c.Stat("boundary-correct")
+			default:
+				c.Stat("boundary-wrong")
+			}
+			c.Case(fmt.Sprintf("boundary|%x|%x|%x", d.user, d.owner, pw), true)
+			if key, desc := c09OpenCheck(d, pw); key != "" {
+				c.Violate("doc", key, d.describe()+": "+desc, fmt.Sprintf("%d %d %d %s", genSeed, rngSeed, idx, hexWire([]byte(pw))))
+			}
+		}
+	}
 }
